@@ -607,7 +607,7 @@ def main(tier):
     rep = Report(PID, tier)
     make_engine()          # (re)generate the MIR dump once, before the workers start
     wasmdrv_build()
-    k = 4 if tier == 'quick' else 6
+    k = 4 if tier == 'quick' else 5
     n = 16
     with mp.Pool(n) as pool:
         results = pool.map(_worker, [(k, (i, n), 4000000) for i in range(n)])
